@@ -3,7 +3,7 @@ Color3DCode, rank clause, Z-type part: the `2·LxLyLz − 3` selected cells are 
 (`Cubic3D.OpsIndep`, by the triangular criterion with the witnesses and ranks of
 `Proofs/LatColor3DCodeRankB.lean`).  Every side `≥ 2` (odd sides included).
 -/
-import PanqecVerif.Proofs.LatColor3DCodeRankB
+import PanqecVerif.Proofs.LatColor3DCodeRankB2
 
 set_option linter.unusedVariables false
 
